@@ -93,7 +93,11 @@ func raw(label string) (json.RawMessage, bool) {
 	mu.Lock()
 	defer mu.Unlock()
 	load()
-	r, ok := replay.Inputs[name(label)]
+	n := name(label)
+	r, ok := replay.Inputs[n]
+	if os.Getenv("VERIF_DEBUG") != "" {
+		fmt.Printf("VERIF-INPUT %s = %s (present=%v)\n", n, string(r), ok)
+	}
 	return r, ok
 }
 
@@ -174,7 +178,35 @@ func CidFromAtom(a string) cid.Cid {
 func Cid(label string) cid.Cid { return CidFromAtom(String(label + ".str")) }
 
 // Node returns an arbitrary non-null IPLD node: an opaque identity (natively a string node).
-func Node(label string) datamodel.Node { return basicnode.NewString(String(label)) }
+func Node(label string) datamodel.Node { return OpaqueNode(String(label)) }
+
+// OpaqueNode is the native form of zz.Node: a string-kind IPLD node that is a comparable VALUE, so
+// that `==` on datamodel.Node interfaces compares identities exactly as the engine does
+// (basicnode.NewString returns a pointer, whose `==` is pointer identity).
+type OpaqueNode string
+
+func (n OpaqueNode) in() datamodel.Node                              { return basicnode.NewString(string(n)) }
+func (n OpaqueNode) Kind() datamodel.Kind                            { return datamodel.Kind_String }
+func (n OpaqueNode) LookupByString(k string) (datamodel.Node, error) { return n.in().LookupByString(k) }
+func (n OpaqueNode) LookupByNode(k datamodel.Node) (datamodel.Node, error) {
+	return n.in().LookupByNode(k)
+}
+func (n OpaqueNode) LookupByIndex(i int64) (datamodel.Node, error) { return n.in().LookupByIndex(i) }
+func (n OpaqueNode) LookupBySegment(s datamodel.PathSegment) (datamodel.Node, error) {
+	return n.in().LookupBySegment(s)
+}
+func (n OpaqueNode) MapIterator() datamodel.MapIterator   { return nil }
+func (n OpaqueNode) ListIterator() datamodel.ListIterator { return nil }
+func (n OpaqueNode) Length() int64                        { return -1 }
+func (n OpaqueNode) IsAbsent() bool                       { return false }
+func (n OpaqueNode) IsNull() bool                         { return false }
+func (n OpaqueNode) AsBool() (bool, error)                { return n.in().AsBool() }
+func (n OpaqueNode) AsInt() (int64, error)                { return n.in().AsInt() }
+func (n OpaqueNode) AsFloat() (float64, error)            { return n.in().AsFloat() }
+func (n OpaqueNode) AsString() (string, error)            { return string(n), nil }
+func (n OpaqueNode) AsBytes() ([]byte, error)             { return n.in().AsBytes() }
+func (n OpaqueNode) AsLink() (datamodel.Link, error)      { return n.in().AsLink() }
+func (n OpaqueNode) Prototype() datamodel.NodePrototype   { return basicnode.Prototype.String }
 
 // Ite is `if c { return a }; return b` without forking the symbolic path.
 func Ite[T any](c bool, a, b T) T {
